@@ -35,8 +35,13 @@ func sbGenE2E(r *Rng, tier string) any {
 		e.Archs = []string{"x86_64", "aarch64"}
 	}
 	if r.Chance(30) {
+		// both 32-bit arm variants: one OCI architecture name, two images, two documents
+		e.Archs = Pick(r, [][]string{{"armv7", "armhf"}, {"armhf", "armv7"}, {"x86_64", "armhf", "armv7"}, {"armv7", "aarch64", "armhf"}})
+	}
+	if r.Chance(30) {
 		e.ConfigArchs = true
 	}
+	e.Publish = r.Chance(35)
 	if r.Chance(40) {
 		e.Budget = 1 + r.Intn(3)
 	}
@@ -273,6 +278,122 @@ func sbSbomDir(flat *sbFlat) []sbEntry {
 	return out
 }
 
+// sbArtifacts is what one build or publication emitted, reduced to bytes: the index manifest, a blob getter, and where
+// the SBOM of an image (by apk architecture and manifest digest) and of the index are to be found.
+type sbArtifacts struct {
+	Index     []byte
+	Get       func(digest string) ([]byte, bool)
+	ArchSBOM  func(apkArch, manifestDigest string) ([]byte, bool)
+	IndexSBOM func(indexDigest string) ([]byte, bool)
+}
+
+func sbFlatOf(fs map[string]*gluelayerEntry) *sbFlat {
+	flat := &sbFlat{files: map[string][]byte{}, dirs: map[string]bool{}}
+	for n, e := range fs {
+		switch e.Type {
+		case tar.TypeDir:
+			flat.dirs[n] = true
+		case tar.TypeReg:
+			flat.files[n] = e.Body
+		}
+	}
+	return flat
+}
+
+// sbJudgeArtifacts: every per-architecture document must describe the image published under that architecture's own
+// platform (variant included: arm/v6 and arm/v7 are two images), the index document the index.  The model's input is
+// read back from the artifacts; the verdicts are the Lean driver's (s.gen / s.idx).
+func sbJudgeArtifacts(archs []string, vcs string, desc string, art sbArtifacts, pre string) []Step {
+	fail := func(why string) []Step {
+		return []Step{{Line: "s.e2e-error", Go: "err:" + why, Desc: desc, Mode: "oracle-go", GoSpec: "fail:" + why, NoImpl: true, Tags: []string{pre + "unreadable"}}}
+	}
+	if art.Index == nil {
+		return fail("no index")
+	}
+	imgs, ip := gluelayerReadIndex(art.Index, art.Get)
+	if p := gluelayerAllProblems(imgs, ip); len(p) > 0 {
+		return fail(gluelayerFirst(p, 3))
+	}
+	if p := gluelayerCheckArchs(imgs, archs); len(p) > 0 {
+		return fail(gluelayerFirst(p, 3))
+	}
+	var steps []Step
+	type archImg struct {
+		arch   types.Architecture
+		digest string
+	}
+	var order []archImg
+	for _, a := range archs {
+		arch := types.ParseArchitecture(a)
+		im := gluelayerImageOf(imgs, a)
+		md := im.Desc.Digest
+		order = append(order, archImg{arch, md})
+		fs, err := gluelayerFlatten(im)
+		if err != nil {
+			return fail("layer unreadable: " + err.Error())
+		}
+		flat := sbFlatOf(fs)
+		dc := &sbCase{Kind: "direct", ImageDigest: md}
+		for _, l := range im.Man.Layers {
+			alg, hx, _ := strings.Cut(l.Digest, ":")
+			dc.Layers = append(dc.Layers, sbHash{alg, hx})
+		}
+		dc.Apks = sbParseInstalled(flat.files["lib/apk/db/installed"])
+		dc.OSVersion = sbOSVersion(flat)
+		dc.FS = sbSbomDir(flat)
+		sb, ok := art.ArchSBOM(a, md)
+		if !ok {
+			steps = append(steps, fail("no SBOM for "+a+" ("+md+")")...)
+			continue
+		}
+		goRes, d := parseEmitted(sb)
+		// build.LockImageConfiguration's "defensive copy" (ImageConfiguration.MergeInto) does not carry vcs-url, so today the
+		// per-architecture document has no source element while the index document has one. The property does not speak
+		// about the source element; the model is given the URL iff the emitted document has a GENERATED_FROM relationship.
+		if d != nil {
+			for _, rel := range d.Rels {
+				if rel.T == "GENERATED_FROM" && len(d.Describes) == 1 && rel.E == d.Describes[0] {
+					dc.VCS = vcs
+				}
+			}
+		}
+		steps = append(steps, Step{Line: genLine(dc, goRes), Go: goRes, Mode: "verdict",
+			Desc: desc + fmt.Sprintf(" arch=%s (%s): image %s, %d layers, installed [%s], %d files in /var/lib/db/sbom", a, im.Plat, md, len(dc.Layers), descApks(dc.Apks), len(dc.FS)),
+			Tags: append(genTags(dc, goRes, d, pre), pre+"plat:"+im.Plat), Trivial: d == nil})
+	}
+	// the index document: images in the order of GenerateIndexSBOM (sorted by architecture string)
+	sort.Slice(order, func(i, j int) bool { return order[i].arch.String() < order[j].arch.String() })
+	s := sha256.Sum256(art.Index)
+	ix := &sbIndex{Digest: sbHash{"sha256", hex.EncodeToString(s[:])}, VCS: vcs}
+	for _, im := range order {
+		alg, hx, _ := strings.Cut(im.digest, ":")
+		ix.Images = append(ix.Images, sbHash{alg, hx})
+	}
+	sb, ok := art.IndexSBOM(ix.Digest.str())
+	if !ok {
+		return append(steps, fail("no index SBOM")...)
+	}
+	goRes, _ := parseEmitted(sb)
+	steps = append(steps, Step{Line: idxLine(ix, goRes), Go: goRes, Mode: "verdict", Desc: desc + fmt.Sprintf(": index %s, %d images", ix.Digest.str(), len(ix.Images)),
+		Tags: []string{fmt.Sprintf("%sidx:images:%d", pre, len(ix.Images))}})
+	return steps
+}
+
+func sbFileArtifacts(out E2EOut) sbArtifacts {
+	return sbArtifacts{
+		Index: out.Files["layout/index.json"],
+		Get:   gluelayerLayoutBlob(out.Files),
+		ArchSBOM: func(a, _ string) ([]byte, bool) {
+			b, ok := out.Files["sbom/sbom-"+a+".spdx.json"]
+			return b, ok
+		},
+		IndexSBOM: func(string) ([]byte, bool) {
+			b, ok := out.Files["sbom/sbom-index.spdx.json"]
+			return b, ok
+		},
+	}
+}
+
 func runSbomE2E(c *sbCase) []Step {
 	e := c.E2E
 	repo := BuildSynthRepo(e.Pkgs, e.Archs)
@@ -291,8 +412,23 @@ func runSbomE2E(c *sbCase) []Step {
 		ic.Archs = append(ic.Archs, types.ParseArchitecture(e.Archs[0]))
 		cliArchs = nil
 	}
-	out := e2eBuild(ic, repo, E2EOpts{Archs: cliArchs, SBOM: true})
 	desc := fmt.Sprintf("apko build world=%v archs=%v layering-budget=%d vcs=%q (%d packages in the repository)", e.World, e.Archs, e.Budget, e.VCS, len(e.Pkgs))
+	if e.Publish {
+		desc = "apko publish" + strings.TrimPrefix(desc, "apko build")
+		pub := gluelayerPublish(ic, repo, cliArchs)
+		if pub.Err != nil {
+			kind := sbErrKind(pub.Err)
+			verdict := "pass"
+			if kind == "other" {
+				verdict = "fail:publish-error: " + pub.Err.Error()
+			}
+			return []Step{{Line: "s.e2e-error", Go: "err:" + kind, Desc: desc, Mode: "oracle-go", GoSpec: verdict, NoImpl: true, Trivial: true, Tags: []string{"publish:err:" + kind}}}
+		}
+		// what was attached in the registry, and the files left in --sbom-path
+		steps := sbJudgeArtifacts(e.Archs, e.VCS, desc+" [SBOM attached to the manifest in the registry]", pub.attached(), "publish:")
+		return append(steps, sbJudgeArtifacts(e.Archs, e.VCS, desc+" [SBOM file in --sbom-path]", pub.files(), "publish-files:")...)
+	}
+	out := e2eBuild(ic, repo, E2EOpts{Archs: cliArchs, SBOM: true})
 	if out.Err != nil {
 		kind := sbErrKind(out.Err)
 		verdict := "pass"
@@ -301,97 +437,5 @@ func runSbomE2E(c *sbCase) []Step {
 		}
 		return []Step{{Line: "s.e2e-error", Go: "err:" + kind, Desc: desc, Mode: "oracle-go", GoSpec: verdict, NoImpl: true, Trivial: true, Tags: []string{"e2e:err:" + kind}}}
 	}
-	fail := func(why string) []Step {
-		return []Step{{Line: "s.e2e-error", Go: "err:" + why, Desc: desc, Mode: "oracle-go", GoSpec: "fail:" + why, NoImpl: true, Tags: []string{"e2e:unreadable"}}}
-	}
-	idxBytes, ok := out.Files["layout/index.json"]
-	if !ok {
-		return fail("no index.json in the layout")
-	}
-	var idx sbOCIIndex
-	if err := json.Unmarshal(idxBytes, &idx); err != nil {
-		return fail("index.json unreadable")
-	}
-	var steps []Step
-	type archImg struct {
-		arch   types.Architecture
-		digest string
-	}
-	var imgs []archImg
-	for _, a := range e.Archs {
-		arch := types.ParseArchitecture(a)
-		oci := arch.ToOCIPlatform().Architecture
-		var md string
-		for _, m := range idx.Manifests {
-			if m.Platform != nil && m.Platform.Architecture == oci {
-				md = m.Digest
-			}
-		}
-		mb, ok := sbBlob(out.Files, md)
-		if !ok {
-			return fail("no manifest for " + a)
-		}
-		// the digest under which the manifest is stored must be the digest of its bytes
-		if s := sha256.Sum256(mb); "sha256:"+hex.EncodeToString(s[:]) != md {
-			return fail("manifest blob does not hash to its name")
-		}
-		imgs = append(imgs, archImg{arch, md})
-		var man sbOCIManifest
-		if err := json.Unmarshal(mb, &man); err != nil {
-			return fail("manifest unreadable")
-		}
-		flat := &sbFlat{files: map[string][]byte{}, dirs: map[string]bool{}}
-		dc := &sbCase{Kind: "direct", ImageDigest: md}
-		for _, l := range man.Layers {
-			lb, ok := sbBlob(out.Files, l.Digest)
-			if !ok {
-				return fail("layer blob missing")
-			}
-			if s := sha256.Sum256(lb); "sha256:"+hex.EncodeToString(s[:]) != l.Digest {
-				return fail("layer blob does not hash to its name")
-			}
-			if err := sbUntar(lb, flat); err != nil {
-				return fail("layer unreadable: " + err.Error())
-			}
-			alg, hx, _ := strings.Cut(l.Digest, ":")
-			dc.Layers = append(dc.Layers, sbHash{alg, hx})
-		}
-		dc.Apks = sbParseInstalled(flat.files["lib/apk/db/installed"])
-		dc.OSVersion = sbOSVersion(flat)
-		dc.FS = sbSbomDir(flat)
-		sb, ok := out.Files["sbom/sbom-"+arch.ToAPK()+".spdx.json"]
-		if !ok {
-			return fail("no SBOM for " + a)
-		}
-		goRes, d := parseEmitted(sb)
-		// build.LockImageConfiguration's "defensive copy" (ImageConfiguration.MergeInto) does not carry vcs-url, so today the
-		// per-architecture document has no source element while the index document has one. The property does not speak
-		// about the source element; the model is given the URL iff the emitted document has a GENERATED_FROM relationship.
-		if d != nil {
-			for _, rel := range d.Rels {
-				if rel.T == "GENERATED_FROM" && len(d.Describes) == 1 && rel.E == d.Describes[0] {
-					dc.VCS = e.VCS
-				}
-			}
-		}
-		steps = append(steps, Step{Line: genLine(dc, goRes), Go: goRes, Mode: "verdict",
-			Desc: desc + fmt.Sprintf(" arch=%s: image %s, %d layers, installed [%s], %d files in /var/lib/db/sbom", a, md, len(dc.Layers), descApks(dc.Apks), len(dc.FS)),
-			Tags: genTags(dc, goRes, d, "e2e:"), Trivial: d == nil})
-	}
-	// the index document: images in the order of GenerateIndexSBOM (sorted by architecture string)
-	sort.Slice(imgs, func(i, j int) bool { return imgs[i].arch.String() < imgs[j].arch.String() })
-	s := sha256.Sum256(idxBytes)
-	ix := &sbIndex{Digest: sbHash{"sha256", hex.EncodeToString(s[:])}, VCS: e.VCS}
-	for _, im := range imgs {
-		alg, hx, _ := strings.Cut(im.digest, ":")
-		ix.Images = append(ix.Images, sbHash{alg, hx})
-	}
-	sb, ok := out.Files["sbom/sbom-index.spdx.json"]
-	if !ok {
-		return append(steps, fail("no index SBOM")...)
-	}
-	goRes, _ := parseEmitted(sb)
-	steps = append(steps, Step{Line: idxLine(ix, goRes), Go: goRes, Mode: "verdict", Desc: desc + fmt.Sprintf(": index %s, %d images", ix.Digest.str(), len(ix.Images)),
-		Tags: []string{fmt.Sprintf("e2e:idx:images:%d", len(ix.Images))}})
-	return steps
+	return sbJudgeArtifacts(e.Archs, e.VCS, desc, sbFileArtifacts(out), "e2e:")
 }
